@@ -3,8 +3,10 @@
    Print Assumptions; small Examples show that the hypotheses are satisfiable.
    Models: Model/Cbor.v (CBOR subset emitted by fxamacker/cbor v2.4.0, protocol.Message, polynomial.Exponent,
    secp256k1 scalar/point codecs, cmp config.UnmarshalBinary validation, FROST config restore).
-   [_refuted] theorems are findings about the code as written; [_partial] theorems carry, as explicit
-   hypotheses, exactly what the code does not establish. *)
+   [_refuted] theorems are findings about the code as written; [_v0] names refer to the code BEFORE the fix:
+   commits 3cad471 (Message), 7b3b4da (Exponent), 96ab1f0 (point prefix), 8307514 (ValidatePrime), 3216d4d (cmp
+   Config.UnmarshalBinary): the models of the old code are kept as small *_v0 definitions and their refutations
+   stay here as regression examples, next to the positive theorems that hold for the repaired code. *)
 From Coq Require Import String.
 From Coq Require Import List NArith ZArith Bool Znumtheory.
 From MPS Require Import Model.Bytes Model.Sx Model.Secp256k1 Model.Cbor Proofs.CborProofs.
@@ -42,28 +44,43 @@ Theorem C15_message_encode_inj : forall m1 m2,
 Proof. exact message_encode_inj. Qed.
 Print Assumptions C15_message_encode_inj.
 
-(* todo-statement of the property:  C15_message_unmarshal_reports_errors_todo :
-     forall m0 bs, message_decode m0 bs = None -> snd (message_unmarshal m0 bs) = true.
-   REFUTED for the code as written: UnmarshalBinary returns nil whatever happens and leaves the receiver
-   unchanged (silently empty for a fresh Message). *)
-Theorem C15_message_unmarshal_never_errors : forall m0 bs, snd (message_unmarshal m0 bs) = false.
-Proof. exact message_unmarshal_never_errors. Qed.
-Theorem C15_message_unmarshal_silent : forall m0 bs,
-  message_decode m0 bs = None -> message_unmarshal m0 bs = (m0, false).
-Proof. exact message_unmarshal_silent. Qed.
-Theorem C15_message_unmarshal_reports_errors_refuted :
-  exists bs, message_decode empty_message bs = None /\
-             message_unmarshal empty_message bs = (empty_message, false).
-Proof. exact message_unmarshal_reports_errors_refuted. Qed.
-Print Assumptions C15_message_unmarshal_reports_errors_refuted.
+(* a decoding failure is reported and leaves the receiver as it was (holds since fix 3cad471) *)
+Theorem C15_message_unmarshal_reports_errors : forall m0 bs,
+  message_decode m0 bs = None -> message_unmarshal m0 bs = (m0, true).
+Proof. exact message_unmarshal_reports_errors. Qed.
+Print Assumptions C15_message_unmarshal_reports_errors.
 
-(* a Message whose From is not valid UTF-8 (party.ID is an arbitrary Go string) is written without complaint
-   and cannot be restored; together with the above: restored as an empty message with a nil error *)
-Theorem C15_message_invalid_utf8_refuted :
+Theorem C15_message_unmarshal_ok_iff : forall m0 bs m,
+  message_unmarshal m0 bs = (m, false) <-> message_decode m0 bs = Some m.
+Proof. exact message_unmarshal_ok_iff. Qed.
+Print Assumptions C15_message_unmarshal_ok_iff.
+
+(* still true: a Message whose From is not valid UTF-8 (party.ID is an arbitrary Go string) is written without
+   complaint and cannot be restored -- the failure is reported now *)
+Theorem C15_message_invalid_utf8_not_restorable :
   exists m, message_decode empty_message (message_encode m) = None /\
-            message_unmarshal empty_message (message_encode m) = (empty_message, false).
-Proof. exact message_invalid_utf8_refuted. Qed.
-Print Assumptions C15_message_invalid_utf8_refuted.
+            message_unmarshal empty_message (message_encode m) = (empty_message, true).
+Proof. exact message_invalid_utf8_not_restorable. Qed.
+Print Assumptions C15_message_invalid_utf8_not_restorable.
+
+(* todo-statement "an input that is not a message never yields an empty message with a nil error": still REFUTED
+   by the one-byte input 0xf6 (fxamacker: null into a struct is a no-op); {} (0xa0) behaves the same in Go *)
+Theorem C15_message_null_silently_empty_refuted : message_unmarshal empty_message [246%N] = (empty_message, false).
+Proof. exact message_null_silently_empty. Qed.
+Print Assumptions C15_message_null_silently_empty_refuted.
+
+(* the old code: UnmarshalBinary returned nil whatever happened *)
+Theorem C15_message_unmarshal_v0_never_errors : forall m0 bs, snd (message_unmarshal_v0 m0 bs) = false.
+Proof. exact message_unmarshal_v0_never_errors. Qed.
+Theorem C15_message_unmarshal_v0_reports_errors_refuted :
+  exists bs, message_decode empty_message bs = None /\
+             message_unmarshal_v0 empty_message bs = (empty_message, false).
+Proof. exact message_unmarshal_v0_reports_errors_refuted. Qed.
+Print Assumptions C15_message_unmarshal_v0_reports_errors_refuted.
+Theorem C15_message_invalid_utf8_v0_refuted :
+  exists m, message_decode empty_message (message_encode m) = None /\
+            message_unmarshal_v0 empty_message (message_encode m) = (empty_message, false).
+Proof. exact message_invalid_utf8_v0_refuted. Qed.
 
 (* ---- scalars ---- *)
 Theorem C15_scalar_decode_iff : forall b s,
@@ -102,14 +119,26 @@ Print Assumptions C15_point_roundtrip.
 Theorem C15_point_decode_extends_strict : forall b P, decompress b = Some P -> point_decode b = Some P.
 Proof. exact point_decode_extends_strict. Qed.
 
-(* todo-statement:  C15_point_decode_canonical_todo : point_decode b = Some P -> point_encode P = b.
-   REFUTED: the first byte is only compared with 3. *)
-Theorem C15_point_decode_prefix_unchecked : forall pre xb,
-  pre <> 3%N -> point_decode (pre :: xb) = point_decode (2%N :: xb).
-Proof. exact point_decode_prefix_unchecked. Qed.
-Theorem C15_point_decode_canonical_refuted : exists b P, point_decode b = Some P /\ point_encode P <> b.
-Proof. exact point_decode_canonical_refuted. Qed.
-Print Assumptions C15_point_decode_canonical_refuted.
+(* the accepted encoding is canonical (holds since fix 96ab1f0).  y <> 0 is true of every point of secp256k1
+   (no point of order two); that fact about the curve is not proved here, hence a hypothesis *)
+Theorem C15_point_decode_canonical : forall b x y,
+  wf_bytes b = true -> point_decode b = Some (Some (x, y)) -> y <> 0%Z -> point_encode (Some (x, y)) = b.
+Proof. exact point_decode_canonical. Qed.
+Print Assumptions C15_point_decode_canonical.
+Theorem C15_point_decode_inj : forall b1 b2 x y,
+  wf_bytes b1 = true -> wf_bytes b2 = true -> y <> 0%Z ->
+  point_decode b1 = Some (Some (x, y)) -> point_decode b2 = Some (Some (x, y)) -> b1 = b2.
+Proof. exact point_decode_inj. Qed.
+
+(* the old code: the first byte was only compared with 3 *)
+Theorem C15_point_decode_v0_prefix_unchecked : forall pre xb,
+  pre <> 3%N -> point_decode_v0 (pre :: xb) = point_decode_v0 (2%N :: xb).
+Proof. exact point_decode_v0_prefix_unchecked. Qed.
+Theorem C15_point_decode_v0_canonical_refuted : exists b P, point_decode_v0 b = Some P /\ point_encode P <> b.
+Proof. exact point_decode_v0_canonical_refuted. Qed.
+Print Assumptions C15_point_decode_v0_canonical_refuted.
+Theorem C15_point_decode_refuses_v0_witness : point_decode (0%N :: bytes32_of_Z secp_Gx) = None.
+Proof. exact point_decode_refuses_v0_witness. Qed.
 
 (* ---- polynomial.Exponent ---- *)
 Theorem C15_exponent_roundtrip : prime secp_p -> forall c pts,
@@ -121,80 +150,106 @@ Print Assumptions C15_exponent_roundtrip.
 Theorem C15_exponent_roundtrip_nil : forall c, exponent_decode (exponent_encode c None) = Ok (c, []).
 Proof. exact exponent_roundtrip_nil. Qed.
 
-(* the 4-byte count is not compared with the array: any count >= the number of coefficients is accepted *)
-Theorem C15_exponent_count_unchecked : prime secp_p -> forall c pts size,
+(* the 4-byte count is still not compared with the array: anything between the number of coefficients and the
+   length of the input is accepted (harmless: it only sizes an allocation that is now bounded by the input) *)
+Theorem C15_exponent_count_bounded : prime secp_p -> forall c pts size,
   Forall finite_on_curve pts -> (lenN pts <= size)%N -> (size < 4294967296)%N ->
+  (size <= lenN (be_bytes 4 size ++ encode (exponent_tree c (Some pts))))%N ->
   exponent_decode (be_bytes 4 size ++ encode (exponent_tree c (Some pts))) = Ok (c, pts).
 Proof. exact exponent_roundtrip_gen. Qed.
 
-(* todo-statement:  C15_exponent_decode_total_todo : forall bs, exponent_decode bs <> Panic.   REFUTED: *)
-Theorem C15_exponent_decode_short_panics_refuted : forall bs, (length bs < 4)%nat -> exponent_decode bs = Panic.
-Proof. exact exponent_decode_short_panics. Qed.
-Print Assumptions C15_exponent_decode_short_panics_refuted.
+(* UnmarshalBinary never panics (holds since fix 7b3b4da) *)
+Theorem C15_exponent_decode_total : forall bs, exponent_decode bs <> Panic.
+Proof. exact exponent_decode_total. Qed.
+Print Assumptions C15_exponent_decode_total.
+Theorem C15_exponent_decode_short_errors : forall bs, (length bs < 4)%nat -> exponent_decode bs = Err 1.
+Proof. exact exponent_decode_short_errors. Qed.
+Theorem C15_exponent_decode_count_checked : forall bs,
+  (lenN bs < be_val (firstn 4 bs))%N -> exists c, exponent_decode bs = Err c.
+Proof. exact exponent_decode_count_checked. Qed.
+
+(* the old code: index panic below four bytes, any count below 2^32 accepted (allocation of that size) *)
+Theorem C15_exponent_decode_v0_short_panics_refuted : forall bs,
+  (length bs < 4)%nat -> exponent_decode_v0 bs = Panic.
+Proof. exact exponent_decode_v0_short_panics. Qed.
+Print Assumptions C15_exponent_decode_v0_short_panics_refuted.
+Theorem C15_exponent_v0_count_unchecked : prime secp_p -> forall c pts size,
+  Forall finite_on_curve pts -> (lenN pts <= size)%N -> (size < 4294967296)%N ->
+  exponent_decode_v0 (be_bytes 4 size ++ encode (exponent_tree c (Some pts))) = Ok (c, pts).
+Proof. exact exponent_v0_count_unchecked. Qed.
 
 (* ---- cmp config ---- *)
-(* todo-statement of the property:
-     C15_config_unmarshal_sound_todo : config_unmarshal pt ab bs = Ok c -> valid_config c.
-   It does not hold for the code as written (see the _refuted theorems below); what holds is: *)
-Theorem C15_config_unmarshal_sound_partial : forall (pt : Z -> bool) (ab : Z -> point),
-  (forall k, (0 < k < secp_q)%Z -> valid_point (ab k)) ->       (* group fact: k.G is a finite curve point *)
-  forall bs c,
-  config_unmarshal pt ab bs = Ok c ->
-  prime (c_P c) -> prime (c_Q c) ->                             (* ValidatePrime tests (p-1)/2, never p *)
-  bitlen (c_P c * c_Q c) = bits_paillier ->                     (* size of the own modulus never checked *)
-  (forall p, In p (c_public c) -> pc_id p = c_id c ->
-             valid_pedersen (pc_N p) (pc_S p) (pc_T p)) ->      (* own Pedersen S, T copied unchecked *)
-  valid_rid (c_rid c) -> valid_rid (c_chain c) ->               (* RID / ChainKey copied unchecked *)
-  valid_config c.
-Proof. exact config_unmarshal_sound_partial. Qed.
-Print Assumptions C15_config_unmarshal_sound_partial.
-
-(* the same on decoded records: checks_as_written + the missing hypotheses => valid_config *)
-Theorem C15_config_checks_sound_partial : forall (pt : Z -> bool) (ab : Z -> point),
+(* whatever the repaired UnmarshalBinary accepts satisfies the validity rules (holds since fixes 8307514 + 3216d4d).
+   The two hypotheses are about the outside world, not about the code: the primality test is sound, and k.G is a
+   finite curve point for 0 < k < q. *)
+Theorem C15_config_unmarshal_sound : forall (pt : Z -> bool) (ab : Z -> point),
   (forall k, (0 < k < secp_q)%Z -> valid_point (ab k)) ->
-  forall cm c,
+  (forall p, pt p = true -> prime p) ->
+  forall bs c, config_unmarshal pt ab bs = Ok c -> valid_config c.
+Proof. exact config_unmarshal_sound. Qed.
+Print Assumptions C15_config_unmarshal_sound.
+
+(* the same on decoded records, and everything else the checks establish (P <> Q, non-zero RID / chain key, ...) *)
+Theorem C15_config_checks_sound : forall (pt : Z -> bool) (ab : Z -> point),
+  (forall k, (0 < k < secp_q)%Z -> valid_point (ab k)) ->
+  (forall p, pt p = true -> prime p) ->
+  forall cm c, wf_config_m cm -> config_checks pt ab cm = Ok c -> valid_config c.
+Proof. exact config_checks_sound. Qed.
+Theorem C15_config_checks_more : forall (pt : Z -> bool) (ab : Z -> point) cm c,
   wf_config_m cm -> config_checks pt ab cm = Ok c ->
-  prime (c_P c) -> prime (c_Q c) -> bitlen (c_P c * c_Q c) = bits_paillier ->
-  (forall p, In p (c_public c) -> pc_id p = c_id c -> valid_pedersen (pc_N p) (pc_S p) (pc_T p)) ->
-  valid_rid (c_rid c) -> valid_rid (c_chain c) ->
-  valid_config c.
-Proof. exact config_checks_sound_partial. Qed.
+  c_P c <> c_Q c /\ bitlen (c_P c * c_Q c) = bits_paillier /\ nonzero_rid (c_rid c) /\ nonzero_rid (c_chain c).
+Proof.
+  intros pt ab cm c Hwf H.
+  destruct (config_checks_facts pt ab cm c Hwf H)
+    as (_ & _ & _ & _ & _ & _ & _ & _ & _ & _ & Hne & HN & _ & _ & _ & _ & _ & _ & Hr & Hc).
+  exact (conj Hne (conj HN (conj Hr Hc))).
+Qed.
 
-(* the refutations: for every primality oracle that says "prime" on the two/one given integers (Go's
-   ProbablyPrime does; the harness checks it and feeds the same configs to Go) there is a decoded config
-   that passes every check of UnmarshalBinary and is not valid *)
-Theorem C15_config_unmarshal_sound_refuted : forall (pt : Z -> bool) (ab : Z -> point),
+(* restoring never panics, whatever the bytes (deferred recover + nil checks) *)
+Theorem C15_config_unmarshal_total : forall pt ab bs, config_unmarshal pt ab bs <> Panic.
+Proof. exact config_unmarshal_total. Qed.
+Print Assumptions C15_config_unmarshal_total.
+Theorem C15_config_unmarshal_null_is_error : forall pt ab, config_unmarshal pt ab [246%N] = Err 12.
+Proof. exact config_unmarshal_null_is_error. Qed.
+
+(* the old code: for every primality oracle that says "prime" on the two/one given integers (Go's ProbablyPrime
+   does; the harness checks it) there was a decoded config that passed every check and is not valid *)
+Theorem C15_config_unmarshal_sound_v0_refuted : forall (pt : Z -> bool) (ab : Z -> point),
   pt (P0 / 2)%Z = true -> pt (Q0 / 2)%Z = true ->
-  exists cm c, wf_config_m cm /\ config_checks pt ab cm = Ok c /\ ~ valid_config c.
-Proof. exact config_unmarshal_sound_refuted. Qed.      (* own Pedersen S, T nil *)
-Print Assumptions C15_config_unmarshal_sound_refuted.
+  exists cm c, wf_config_m cm /\ config_checks_v0 pt ab cm = Ok c /\ ~ valid_config c.
+Proof. exact config_unmarshal_sound_v0_refuted. Qed.      (* own Pedersen S, T nil *)
+Print Assumptions C15_config_unmarshal_sound_v0_refuted.
 
-Theorem C15_config_rid_refuted : forall (pt : Z -> bool) (ab : Z -> point),
+Theorem C15_config_rid_v0_refuted : forall (pt : Z -> bool) (ab : Z -> point),
   pt (P0 / 2)%Z = true -> pt (Q0 / 2)%Z = true ->
-  exists cm c, wf_config_m cm /\ config_checks pt ab cm = Ok c /\ ~ valid_config c.
-Proof. exact config_rid_refuted. Qed.                  (* RID / ChainKey nil *)
+  exists cm c, wf_config_m cm /\ config_checks_v0 pt ab cm = Ok c /\ ~ valid_config c.
+Proof. exact config_rid_v0_refuted. Qed.                  (* RID / ChainKey nil *)
 
-Theorem C15_config_composite_prime_refuted : forall (pt : Z -> bool) (ab : Z -> point),
+Theorem C15_config_composite_prime_v0_refuted : forall (pt : Z -> bool) (ab : Z -> point),
   pt (PC / 2)%Z = true -> pt (Q0 / 2)%Z = true ->
-  exists cm c, wf_config_m cm /\ config_checks pt ab cm = Ok c /\ ~ valid_config c.
-Proof. exact config_composite_refuted. Qed.            (* P = PC is divisible by 3 *)
-Print Assumptions C15_config_composite_prime_refuted.
+  exists cm c, wf_config_m cm /\ config_checks_v0 pt ab cm = Ok c /\ ~ valid_config c.
+Proof. exact config_composite_v0_refuted. Qed.            (* P = PC is divisible by 3 *)
+Print Assumptions C15_config_composite_prime_v0_refuted.
 
-Theorem C15_config_modulus_size_refuted : forall (pt : Z -> bool) (ab : Z -> point),
+Theorem C15_config_modulus_size_v0_refuted : forall (pt : Z -> bool) (ab : Z -> point),
   pt (PS / 2)%Z = true ->
-  exists cm c, wf_config_m cm /\ config_checks pt ab cm = Ok c /\ ~ valid_config c.
-Proof. exact config_modulus_size_refuted. Qed.         (* P = Q = PS: N has 2047 bits (and is a square) *)
-Print Assumptions C15_config_modulus_size_refuted.
+  exists cm c, wf_config_m cm /\ config_checks_v0 pt ab cm = Ok c /\ ~ valid_config c.
+Proof. exact config_modulus_size_v0_refuted. Qed.         (* P = Q = PS: N has 2047 bits (and is a square) *)
+Print Assumptions C15_config_modulus_size_v0_refuted.
 
-(* todo-statement:  C15_config_unmarshal_total_todo : config_unmarshal pt ab bs <> Panic.   REFUTED: *)
-Theorem C15_config_unmarshal_null_panics_refuted : forall pt ab, config_unmarshal pt ab [246%N] = Panic.
-Proof. exact config_unmarshal_null_panics. Qed.
-Print Assumptions C15_config_unmarshal_null_panics_refuted.
-Theorem C15_config_zero_modulus_panics_refuted :
+(* ... and the repaired code refuses the composite PC as soon as the primality test is sound *)
+Theorem C15_validate_prime_refuses_composite : forall pt : Z -> bool,
+  (forall p, pt p = true -> prime p) -> validate_prime pt (Some PC) = false.
+Proof. exact validate_prime_refuses_composite. Qed.
+
+Theorem C15_config_unmarshal_v0_null_panics_refuted : forall pt ab, config_unmarshal_v0 pt ab [246%N] = Panic.
+Proof. exact config_unmarshal_v0_null_panics. Qed.
+Print Assumptions C15_config_unmarshal_v0_null_panics_refuted.
+Theorem C15_config_v0_zero_modulus_panics_refuted :
   pub_of_tree (CMap [ (CText k_id, CText [98%N]); (CText k_ecdsa, CNull); (CText k_elgamal, CNull);
                       (CText k_N, CBytes []); (CText k_S, CNull); (CText k_T, CNull) ]) = Panic
-  /\ forall ab id x y NN l acc, process_publics ab id x y NN (Panic :: l) acc = Panic.
-Proof. exact (conj pub_entry_zero_modulus_panics process_publics_panic_propagates). Qed.
+  /\ forall ab id x y NN l acc, process_publics_v0 ab id x y NN (Panic :: l) acc = Panic.
+Proof. exact (conj pub_entry_zero_modulus_panics process_publics_v0_panic_propagates). Qed.
 
 (* ---- FROST keygen.Config: nothing is validated on restore ---- *)
 Theorem C15_frost_unmarshal_sound_refuted :
@@ -205,7 +260,9 @@ Print Assumptions C15_frost_unmarshal_sound_refuted.
 
 (* ---- CBOR null in a field of Go interface type (curve.Scalar, curve.Point) that the Empty* constructor
         pre-set: the decoder panics; seen on cmp.Config (ECDSA, ElGamal, every public point) and on
-        frost.Config / doerner configs / PreSignature / Signature.  todo-statement "restore never panics": REFUTED *)
+        frost.Config / doerner configs / PreSignature / Signature.  For cmp.Config the panic is recovered into an
+        error since fix 3216d4d (C15_config_unmarshal_total); for the types restored by plain cbor.Unmarshal the
+        todo-statement "restore never panics" stays REFUTED *)
 Theorem C15_null_interface_field_panics_refuted :
   fld_scalar CNull = Panic /\ fld_point CNull = Panic /\
   config_of_tree (CMap [ (CText k_id, CNull); (CText k_threshold, CNull); (CText k_ecdsa, CNull);
